@@ -35,6 +35,219 @@ def analyze_root(facts, root_name, model, ctx=None):
     return ctx
 
 
+def analyze_frontend(facts, root_name):
+    """root_fe_<copy>_<F>(bytes: &[u8]) with arbitrary bytes; the library call is summarised (its own behaviour is C04/C08)"""
+    G.reset()
+    ctx = Ctx(facts, "arbitrary")
+    ctx.frontend = True
+    I = Interp(ctx)
+    rid = facts.root_id(root_name)
+    inst = facts.mono[rid]
+    st = St()
+    fr = next(G.frames)
+    st.env[(fr, 1)] = new_ptr(("slice", ("ext", "input", (0, 255), None), const_int(0), new_int(0, A1_BOUND)))
+    t0 = time.time()
+    exits = I.run_fn(inst, fr, [st])
+    ctx.wall = time.time() - t0
+    ctx.exits = len(exits)
+    ctx.exit_states = exits
+    return ctx
+
+
+def frontend_postconditions(ctx, facts, root_name):
+    """C19 structural post-conditions, recorded as obligations of kind `post:`"""
+    rid = facts.root_id(root_name)
+    inst = facts.mono[rid]
+    # (a) the library is called at all, with the third argument an i32 and iterators over the input region
+    ok = bool(ctx.lib_calls)
+    detail = "%d abstract call sites reached" % len(ctx.lib_calls)
+    for st, args, cinst, span in ctx.lib_calls:
+        for a in args[:2]:
+            o = G.obj.get(a) if isinstance(a, int) else None
+            if not (o and o[0] == "iter" and o[1][:2] == ("ext", "input")):
+                ok = False
+                detail = "an iterator argument of minimal_lexical::parse_float is not an iterator over (a sub-slice of) the input bytes"
+    ctx.record = True
+    ctx.oblige("post:library called on sub-slices of the input", ok, inst, inst.get("span"), detail)
+    # (b) the returned remainder is a sub-slice of the input
+    okr = True
+    for st, rv in ctx.exit_states:
+        p = rv.d.get((("f", 1),)) if isinstance(rv, Fields) else None
+        d = G.ptr.get(p) if isinstance(p, int) else None
+        if not (d and d[0] == "slice" and d[1][:2] == ("ext", "input")):
+            okr = False
+    ctx.oblige("post:returned remainder is a sub-slice of the input", okr and bool(ctx.exit_states), inst, inst.get("span"),
+               "%d exits" % len(ctx.exit_states))
+
+
+def truncation_postconditions(ctx, inst):
+    """C06 typestate: a digit may be left unread only if the result says so.
+    parse_number:       every exit has many_digits == true, or both input iterators exhausted
+    parse_number_fast:  Some(..) only with both iterators exhausted
+    parse_mantissa:     both iterators exhausted, or count >= max_digits"""
+    name = inst["dpath"].rsplit("::", 1)[-1]
+    L1, L2 = ("exh", ("L", "arg1")), ("exh", ("L", "arg2"))
+    ctx.record = True
+    n_ok = 0
+    for st, rv in ctx.exit_states:
+        both = L1 in st.ghost and L2 in st.ghost
+        ok = both
+        why = "integer exhausted=%s fraction exhausted=%s" % (L1 in st.ghost, L2 in st.ghost)
+        d = rv.d if isinstance(rv, Fields) else {}
+        if name == "parse_number":
+            md = d.get((("f", 2),))
+            mdv = st.get_iv(md) if isinstance(md, int) and md in G.base else None
+            ok = both or mdv == (1, 1)
+            why += " many_digits=%s" % (mdv,)
+            if not ok:
+                # the returned Number is the payload of a `Some(..)` produced by a callee that exhausted clones of both
+                # parameters (the quick first pass): every digit went into that value
+                kids = {1: False, 2: False}
+                for gk in st.ghost:
+                    if gk[0] == "exh" and len(gk[1]) == 3:
+                        par = gk[1][2]
+                        if par == ("L", "arg1"):
+                            kids[1] = True
+                        if par == ("L", "arg2"):
+                            kids[2] = True
+                mant = d.get((("f", 1),))
+                alias = False
+                for k, a in st.env.items():
+                    if len(k) == 5 and k[2] == ("v", 1) and k[3] == ("f", 0) and k[4] == ("f", 1) and a == mant:
+                        dk = st.env.get(k[:2] + ("discr",))
+                        if isinstance(dk, int) and dk in G.base and st.get_iv(dk) == (1, 1):
+                            alias = True
+                if alias and kids[1] and kids[2]:
+                    ok = True
+                    why += " (value of a first pass that consumed clones of both iterators)"
+        elif name == "parse_number_fast":
+            dv = d.get(("discr",))
+            dvv = st.get_iv(dv) if isinstance(dv, int) and dv in G.base else None
+            ok = both or dvv == (0, 0)
+            why += " discriminant=%s" % (dvv,)
+        elif name == "parse_mantissa":
+            cnt = d.get((("f", 1),))
+            # max_digits is argument 3
+            key = None
+            mx = None
+            for k, a in st.env.items():
+                pass
+            mx = ctx.arg_atoms.get(3)
+            if isinstance(cnt, int) and cnt in G.base and mx is not None:
+                ok = both or st.diff_le(mx, cnt, 0)
+                why += " count=%s max_digits=%s" % (st.get_iv(cnt), st.get_iv(mx))
+        ctx.oblige("post:unread digits imply the truncation flag", ok, inst, inst.get("span"), why)
+        n_ok += ok
+    if not ctx.exit_states:
+        ctx.oblige("post:unread digits imply the truncation flag", False, inst, inst.get("span"), "no exit state")
+
+
+def round_postconditions(ctx, inst, facts):
+    """C18: after round::<F, _>(&mut fp, cb) the fields pack without overlap and never encode NaN:
+    0 <= exp <= INFINITE_POWER, mant <= HIDDEN_BIT_MASK, exp == INFINITE_POWER => mant == 0"""
+    fty = None
+    for t in inst.get("targs", []):
+        if t.get("k") == "float":
+            fty = "f%d" % t["bits"]
+    if fty is None:
+        return
+    inf = facts.float_const(fty, "INFINITE_POWER")
+    hid = facts.float_const(fty, "HIDDEN_BIT_MASK")
+    ctx.record = True
+    for st, rv in ctx.exit_states:
+        p = None
+        for k, a in st.env.items():
+            if len(k) == 3 and k[2] == "pointee" and k[1] == 1:
+                pass
+        # the ExtendedFloat lives in the argument frame: (afr, 1, "pointee", f0/f1)
+        cells = [(k, a) for k, a in st.env.items() if len(k) == 4 and k[1] == 1 and k[2] == "pointee"]
+        m = e = None
+        for k, a in cells:
+            if k[3] == ("f", 0):
+                m = a
+            if k[3] == ("f", 1):
+                e = a
+        ok = False
+        why = "result not tracked"
+        if isinstance(m, int) and isinstance(e, int) and m in G.base and e in G.base:
+            M, E = st.get_iv(m), st.get_iv(e)
+            ok = E[0] >= 0 and E[1] <= inf and M[0] >= 0 and M[1] <= hid and (E[1] < inf or M == (0, 0))
+            why = "exp %s mant %s (INFINITE_POWER %d, HIDDEN_BIT_MASK %d)" % (E, M, inf, hid)
+        ctx.oblige("post:round yields packable fields (no NaN, no overlap)", ok, inst, inst.get("span"), why)
+    if not ctx.exit_states:
+        ctx.oblige("post:round yields packable fields (no NaN, no overlap)", False, inst, inst.get("span"), "no exit state")
+
+
+def cutoff_postconditions(ctx, inst, facts):
+    """C07/C05: an exit of the moderate stage that returns literal infinity / zero *before any call* (an early-out by decimal
+    exponent alone) must be implied by the exponent bound of its path: 10^q_lo >= 2^(bias+1), resp. 2^64 * 10^q_hi <= 2^(-bias-p)"""
+    from fractions import Fraction
+    from ..consts import ieee
+    fty = None
+    for t in inst.get("targs", []):
+        if t.get("k") == "float":
+            fty = "f%d" % t["bits"]
+    if fty is None:
+        return
+    P, w, bias, p, bits = ieee(facts, fty)
+    inf = facts.float_const(fty, "INFINITE_POWER")
+    ctx.record = True
+    n = 0
+    name = inst["dpath"].rsplit("::", 1)[-1]
+    for st, rv in ctx.exit_states:
+        if ("called",) in st.ghost or not isinstance(rv, Fields):
+            continue
+        m, e = rv.d.get((("f", 0),)), rv.d.get((("f", 1),))
+        if not (isinstance(m, int) and isinstance(e, int) and m in G.base and e in G.base):
+            continue
+        M, E = st.get_iv(m), st.get_iv(e)
+        if name == "compute_float":
+            q = ctx.arg_atoms.get(1)
+        else:
+            q = st.env.get((ctx.arg_frame, 1, "pointee", ("f", 0)))
+        if not (isinstance(q, int) and q in G.base):
+            continue
+        Q = st.get_iv(q)
+        if M == (0, 0) and E == (inf, inf):
+            n += 1
+            ok = Fraction(10) ** min(Q[0], 5000) >= Fraction(2) ** (bias + 1) if Q[0] > -5000 else False
+            ctx.oblige("post:early infinity implied by the decimal exponent", ok, inst, inst.get("span"),
+                       "path has q in %s; needs 10^q_lo >= 2^%d" % (Q, bias + 1))
+        elif M == (0, 0) and E == (0, 0):
+            n += 1
+            ok = Fraction(2) ** 64 * Fraction(10) ** max(Q[1], -5000) <= Fraction(1, 2 ** (bias + p)) if Q[1] < 5000 else False
+            ctx.oblige("post:early zero implied by the decimal exponent", ok, inst, inst.get("span"),
+                       "path has q in %s; needs 2^64 * 10^q_hi <= 2^-%d" % (Q, bias + p))
+    ctx.oblige("post:early-out exits found", n >= 2, inst, inst.get("span"), "%d call-free exits returning a literal zero/infinity" % n)
+
+
+def saturation_postconditions(ctx, inst, positive):
+    """C19: parse_exponent returns the saturation constant only when the accumulator was about to overflow"""
+    lim = ((1 << 31) - 1 - 9) // 10 + 1        # smallest accumulator value for which value*10 + digit can exceed i32::MAX
+    ctx.record = True
+    n = 0
+    for st, rv in ctx.exit_states:
+        if not (isinstance(rv, int) and rv in G.base):
+            continue
+        R = st.get_iv(rv)
+        sat = (1 << 31) - 1 if positive else -(1 << 31)
+        if R != (sat, sat):
+            continue
+        n += 1
+        ok = False
+        best = None
+        for k, a in st.env.frame(ctx.root_frame).items():
+            if isinstance(a, int) and a in G.base and a != rv:
+                r = st.get_iv(a)
+                if positive and r[0] >= lim and r[1] <= (1 << 31):
+                    ok = True
+                if (not positive) and r[1] <= -lim and r[0] >= -(1 << 31) - 1:
+                    ok = True
+        ctx.oblige("post:exponent saturates only on i32 overflow", ok, inst, inst.get("span"),
+                   "a saturating return whose path does not imply |accumulator| >= %d" % lim)
+    ctx.oblige("post:saturating exits found", n >= 1, inst, inst.get("span"), "%d exits return the saturation constant" % n)
+
+
 def report(ctx, out=sys.stdout, only_failed=True):
     n = len(ctx.obs)
     bad = [o for o in ctx.obs.values() if o.failed]
@@ -101,7 +314,7 @@ def mk_arg(st, ty, key, facts, model, idx, overrides):
         if "slice::Iter<" in ty.get("s", "") or "slice::iter::Iter<" in ty.get("s", ""):
             rint, rfrac = byte_regions(model)
             reg = rint if idx == 1 else rfrac
-            return new_obj(("iter", reg, new_int(0, A1_BOUND), "y", "n"))
+            return new_obj(("iter", reg, new_int(0, A1_BOUND), "y", "n", ("L", "arg%d" % idx)))
         init_adt(st, ty, key, facts)
         from .engine import Agg
         return Agg(key)
@@ -118,9 +331,11 @@ def init_adt(st, ty, key, facts):
             stackvec_inv(st, key + (("f", 0),), cap)
 
 
-def analyze_fn(facts, inst, model, overrides=None, ctx=None, pre=None):
+def analyze_fn(facts, inst, model, overrides=None, ctx=None, pre=None, keep_paths=False):
     G.reset() if ctx is None else None
     ctx = ctx or Ctx(facts, model)
+    ctx.keep_root_paths = keep_paths
+    ctx.arg_atoms = {}
     I = Interp(ctx)
     st = St()
     fr = next(G.frames)
@@ -136,10 +351,14 @@ def analyze_fn(facts, inst, model, overrides=None, ctx=None, pre=None):
         if isinstance(v, Agg):
             v = snapshot(st, v)
         write(st, (fr, i), v)
+        if isinstance(v, int):
+            ctx.arg_atoms[i] = v
     if pre:
         pre(st, fr)
     t0 = time.time()
     I.mod.active.add(inst["id"])
+    ctx.root_frame = fr
+    ctx.arg_frame = afr
     exits = I.run_fn(inst, fr, [st])
     I.mod.active.discard(inst["id"])
     ctx.wall = time.time() - t0
@@ -166,6 +385,12 @@ if __name__ == "__main__":
     from mlxsa import facts as F
     if sys.argv[1] == "fn":
         main_fn(sys.argv[2:])
+        sys.exit(0)
+    if sys.argv[1] == "fe":
+        from mlxsa import facts as F
+        f = F.build(sys.argv[2], sys.argv[3], frontends=True)
+        ctx = analyze_frontend(f, sys.argv[4])
+        report(ctx, only_failed="--all" not in sys.argv)
         sys.exit(0)
     cfg, mode, root, model = sys.argv[1:5]
     f = F.build(cfg, mode)
